@@ -39,6 +39,7 @@ from datetime import datetime, timedelta, timezone
 from . import common
 from . import c01_own as own
 from . import c12_reads as reads
+from . import c12_faults as faults
 from .common import Check, sx
 from .evutil import BASE, dt, us_of_dt, us_of_td
 
@@ -313,6 +314,18 @@ def boundary_programs(buckets, rnd=0):
             'RETURN = {"n1": n1, "n2": n2, "e3": e3, "n3": n3, "e4": e4, "n4": n4, "o4": o4, "t": t, "u": u}'], None,
            {"n1": ("count", b1), "n2": ("count", b1, (None, x1)), "e3": ("events", b1, (x2, x1)), "n3": ("count", b1, (x2, x1)),
             "e4": ("events", b1, (x2, x3)), "n4": ("count", b1, (x2, x3)), "o4": ("events", b2, (x2, x3))})
+    # ... to an instant whose UTC offset has a seconds part: its isoformat does not parse back, the next read raises (it
+    # must not quietly read over another window)
+    off = ODD_OFFSETS[rnd % len(ODD_OFFSETS)]
+    s4, _x4 = rebind("STARTTIME", BASE + 20_000_000, off)
+    s5, _x5 = rebind("ENDTIME", BASE - 1_000_000, ODD_OFFSETS[(rnd + 3) % len(ODD_OFFSETS)])
+    for tag, sx_ in (("start", s4), ("end", s5)):
+        yield ("rebind-odd-window-" + tag,
+               [f'e1 = query_bucket("{b1}")', f"t = categorize(e1, {RULES})", sx_, f'e2 = query_bucket("{b1}")', 'RETURN = {"e2": e2, "t": t}'],
+               "odd-window", None)
+        yield ("rebind-odd-window-" + tag + "-count",
+               [f'n1 = query_bucket_eventcount("{b1}")', sx_, f'n2 = query_bucket_eventcount("{b1}")', 'RETURN = {"n1": n1, "n2": n2}'],
+               "odd-window", None)
     yield ("empty", ["RETURN = 1"], None, None)
 
 
@@ -325,6 +338,7 @@ def random_program(rng, buckets):
     read_buckets = []
     counter = [0]
     win = [None, None]     # the window the program assigned itself (None = the query's own instant)
+    odd_rebound = [False]  # ... to an instant whose isoformat iso8601 rejects: the reads after it raise
 
     def read():
         counter[0] += 1
@@ -357,7 +371,8 @@ def random_program(rng, buckets):
         if rng.random() < 0.1:
             i = rng.randrange(2)
             stmt, x = rebind(["STARTTIME", "ENDTIME"][i], BASE + rng.choice([-2, 0, 1, 3, 10, 40]) * 1_000_000 + rng.choice([0, 1, 999, 1000]),
-                             rng.choice([0, 60, -300, 345]))
+                             rng.choice([0, 60, -300, 345, rng.choice(ODD_OFFSETS)]))
+            odd_rebound[0] = odd_rebound[0] or not parses_back(x)
             stmts.append(stmt)
             win[i] = x
             read()
@@ -376,6 +391,8 @@ def random_program(rng, buckets):
     if rng.random() < 0.4:
         fail, stmt = rng.choice(FAILING)
         stmts.insert(rng.randrange(2, len(stmts) + 1), stmt)
+    if odd_rebound[0] and fail is None:
+        fail = "odd-window"
     spec = None
     if rng.random() < 0.9:
         keys = sorted(pristine)
@@ -437,12 +454,54 @@ def aware(us, off_min):
     return dt(us).astimezone(timezone(timedelta(minutes=off_min)))
 
 
+def aware_odd(us, off):
+    """off = (seconds, microseconds) of a UTC offset that is not a whole number of minutes"""
+    return dt(us).astimezone(timezone(timedelta(seconds=off[0], microseconds=off[1])))
+
+
+# round 5: UTC offsets with a seconds (or sub-second) part.  Python renders them as +01:00:30 / +00:00:00.000001, which
+# iso8601.parse_date rejects: the window cannot travel through the namespace strings.  The direct windowed read works.
+ODD_OFFSETS = [(30, 0), (3630, 0), (-2670, 0), (1172, 0), (1, 0), (-1, 0), (59, 0), (86399, 0), (-86399, 0), (0, 1), (19800, 500000)]
+
+
+def odd_windows():
+    """(start, end) datetimes at least one of which has such an offset; spans that hold part of a populated bucket"""
+    s = 1_000_000
+    spans = [(BASE + s, BASE + 3 * s), (BASE + 500, BASE + s + 500), (BASE + 2 * s, BASE + 2 * s), (BASE - s, BASE + 999)]
+    for i, off in enumerate(ODD_OFFSETS):
+        a, b = spans[i % len(spans)]
+        yield aware_odd(a, off), aware_odd(b, off)
+        a, b = spans[(i + 1) % len(spans)]
+        yield aware_odd(a, off), aware(b, [0, 60, -300][i % 3])
+        a, b = spans[(i + 2) % len(spans)]
+        yield aware(a, [0, 345][i % 2]), aware_odd(b, off)
+    # the same through the zone database: local mean time before the zone adopted a whole-minute offset
+    try:
+        from zoneinfo import ZoneInfo
+        ams, mon = ZoneInfo("Europe/Amsterdam"), ZoneInfo("Africa/Monrovia")
+        yield datetime(1930, 6, 1, 12, tzinfo=ams), datetime(1930, 6, 2, 12, tzinfo=ams)            # +01:19:32, nothing inside
+        yield datetime(1930, 6, 1, 12, tzinfo=ams), aware(BASE + 2 * s, 60)                         # everything up to the end
+        yield datetime(1960, 6, 1, 12, 0, 0, 250, tzinfo=mon), datetime(1971, 6, 1, tzinfo=mon)     # -00:44:30
+        yield aware(BASE + s, 0), datetime(1960, 6, 1, tzinfo=mon)                                  # inverted
+    except Exception:
+        pass
+
+
+def parses_back(x):
+    import iso8601
+    try:
+        y = iso8601.parse_date(x.isoformat())
+    except iso8601.ParseError:
+        return False
+    return y == x and y.utcoffset() == x.utcoffset()
+
+
 REBOUND = {}          # isoformat string the generator wrote into a program -> the datetime it stands for
 
 
 def rebind(var, us, off_min):
     """the statement `STARTTIME = "<isoformat>"` / `ENDTIME = ...` and the datetime it stands for"""
-    x = aware(us, off_min)
+    x = aware_odd(us, off_min) if isinstance(off_min, tuple) else aware(us, off_min)
     REBOUND[x.isoformat()] = x
     return f'{var} = "{x.isoformat()}"', x
 
@@ -752,9 +811,22 @@ def run_backend(backend, tier, seed, repo, have_driver=True):
             b = a + rng.choice([0, 1, 1000, rng.randrange(0, 30_000_000), rng.randrange(0, 30_000_000),
                                 rng.randrange(5_000_000, 60_000_000), rng.randrange(5_000_000, 60_000_000), -rng.randrange(0, 5_000_000)])
             wins.append((a, rng.choice([0, 60, -60, 330, 345, 765, -720, 840]), b, rng.choice([0, 0, 60, -210])))
-        for a, oa, b, ob in wins:
-            st, en = aware(a, oa), aware(b, ob)
+        wlist = [(a, oa, b, ob, aware(a, oa), aware(b, ob), False) for a, oa, b, ob in wins]
+        # round 5: windows whose UTC offset has a seconds part (outside the domain of parse_inverts_isoformat): the query
+        # raises, or query_bucket is the direct windowed read -- never another set of events
+        odd = list(odd_windows()) if rd["bwin"] else []
+        for _ in range(rd["windows"] // 8):
+            off = rng.choice(ODD_OFFSETS)
+            a = BASE + rng.randrange(-3_000_000, 15_000_000)
+            b = a + rng.choice([0, 1000, rng.randrange(0, 30_000_000), rng.randrange(5_000_000, 60_000_000)])
+            odd.append(rng.choice([(aware_odd(a, off), aware_odd(b, off)), (aware_odd(a, off), aware(b, rng.choice([0, 60]))),
+                                   (aware(a, rng.choice([0, -210])), aware_odd(b, off))]))
+        wlist += [(us_of_dt(x), str(x.utcoffset()), us_of_dt(y), str(y.utcoffset()), x, y, True) for x, y in odd]
+        for a, oa, b, ob, st, en, is_odd in wlist:
             for x in (st, en):
+                if is_odd:
+                    count("window-instant-with-a-sub-minute-offset:" + ("parses back" if parses_back(x) else "iso8601 rejects its isoformat"))
+                    continue
                 y = iso8601.parse_date(x.isoformat())
                 if y != x or y.utcoffset() != x.utcoffset() or y.microsecond != x.microsecond:
                     rep["oracle_dev"] += 1
@@ -768,9 +840,30 @@ def run_backend(backend, tier, seed, repo, have_driver=True):
             # counts before / between / after two reads of the bucket, an annotating built-in in between (not mirrored)
             kind, stmts, fail, spec = window_program(bk)
             run_program(rnd, ds, sizes, kind, stmts, fail, spec, a, b, st, en, mirror=False)
-            direct = ev_rows(ds[bk].get(starttime=st, endtime=en))
-            dcount = ds[bk].get_eventcount(starttime=st, endtime=en)
-            if world is not None:
+            try:
+                direct = ev_rows(ds[bk].get(starttime=st, endtime=en))
+                dcount = ds[bk].get_eventcount(starttime=st, endtime=en)
+            except Exception as ex:
+                if not is_odd:
+                    raise
+                count("window:sub-minute-offset:the direct read raises " + type(ex).__name__)
+                continue
+            if is_odd:
+                got = []
+                for q in (f'RETURN = query_bucket("{bk}");', f'RETURN = query_bucket_eventcount("{bk}");'):
+                    try:
+                        r = query2.query("q", q, st, en, ds)
+                        got.append(ev_rows(r) if isinstance(r, list) else r)
+                    except (QueryException, iso8601.ParseError) as ex:
+                        got.append(None)
+                        count("window:sub-minute-offset:query raised " + type(ex).__name__)
+                    except Exception as ex:
+                        got.append(None)
+                        count("window:sub-minute-offset:query raised another class: " + type(ex).__name__)
+                via, vcount = (direct if got[0] is None else got[0]), (dcount if got[1] is None else got[1])
+                if got[0] is not None or got[1] is not None:
+                    count("window:sub-minute-offset:query answered")
+            elif world is not None:
                 # through the model's q2_query_bucket / q2_query_bucket_eventcount as well
                 bnum = int(bk[1:])
                 r1 = world.call([17, bnum, [a, oa * 60_000_000], [b, ob * 60_000_000]], f"query_bucket({bk!r}) over [{st.isoformat()}, {en.isoformat()}]",
@@ -800,6 +893,10 @@ def run_backend(backend, tier, seed, repo, have_driver=True):
             w = {"wire": world.wire, "obs": world.impl_obs, "log": world.log, "lenient": sorted(world.lenient)}
             rep["disagreements"] += compare_worlds([w])
             count("model-steps", len(world.wire))
+    # ---- round 5: queries whose storage read fails (an event no read can decode, one-off engine faults), after writes
+    # nobody has read yet; every bucket afterwards compared with the harness's own record of what it wrote
+    faults.run_fault_rounds(backend, fac, rng, Event, Datastore, query2, QueryException, rep, count,
+                            n_random=(15 if quick else 400), seed=seed)
     if backend != "memory":
         fac.close()
     return rep
